@@ -22,6 +22,9 @@ func Remainder(left, right value.Value) error {
 			} else if lv.IsNegativeInf || rv.IsNegativeInf {
 				lv.Value = 0
 				lv.IsNegativeInf = true
+			} else if rv.Value == 0 {
+				lv.IsNAN = true
+				return errors.WithStack(fmt.Errorf("division by zero"))
 			} else {
 				lv.Value %= rv.Value
 			}
@@ -37,6 +40,9 @@ func Remainder(left, right value.Value) error {
 			} else if lv.IsNegativeInf || rv.IsNegativeInf {
 				lv.Value = 0
 				lv.IsNegativeInf = true
+			} else if int64(rv.Value) == 0 {
+				lv.IsNAN = true
+				return errors.WithStack(fmt.Errorf("division by zero"))
 			} else {
 				lv.Value %= int64(rv.Value)
 			}
@@ -55,6 +61,9 @@ func Remainder(left, right value.Value) error {
 			} else if lv.IsNegativeInf || rv.IsNegativeInf {
 				lv.Value = 0
 				lv.IsNegativeInf = true
+			} else if rv.Value == 0 {
+				lv.IsNAN = true
+				return errors.WithStack(fmt.Errorf("division by zero"))
 			} else {
 				lv.Value = float64(int64(lv.Value) % rv.Value)
 			}
@@ -67,6 +76,9 @@ func Remainder(left, right value.Value) error {
 			} else if lv.IsNegativeInf || rv.IsNegativeInf {
 				lv.Value = 0
 				lv.IsNegativeInf = true
+			} else if int64(rv.Value) == 0 {
+				lv.IsNAN = true
+				return errors.WithStack(fmt.Errorf("division by zero"))
 			} else {
 				lv.Value = float64(int64(lv.Value) % int64(rv.Value))
 			}
@@ -78,9 +90,15 @@ func Remainder(left, right value.Value) error {
 		switch right.Type() {
 		case value.IntegerType: // RTIME %= INTEGER
 			rv := value.Unwrap[*value.Integer](right)
+			if time.Duration(rv.Value)*time.Second == 0 {
+				return errors.WithStack(fmt.Errorf("division by zero"))
+			}
 			lv.Value %= (time.Duration(rv.Value) * time.Second)
 		case value.FloatType: // RTIME %= FLOAT
 			rv := value.Unwrap[*value.Float](right)
+			if time.Duration(rv.Value)*time.Second == 0 {
+				return errors.WithStack(fmt.Errorf("division by zero"))
+			}
 			lv.Value %= (time.Duration(rv.Value) * time.Second)
 		default:
 			return errors.WithStack(fmt.Errorf("invalid division RTIME type, got %s", right.Type()))
